@@ -9,4 +9,6 @@
 //@pin file=lrpar/src/lib/parser.rs fn=lr_cactus sha=1d44d444a2bfd9dc
 //@pin file=lrpar/src/lib/parser.rs fn=next_lexeme sha=8aa35f57798e4927
 //@pin file=lrpar/src/lib/parser.rs fn=next_tidx sha=6bc450bf47b1fec0
+// Parser::lr is under contract for C07/C04 (unit c07_lr); for C05/C06 (which sequence is applied, what is reported) it is pinned
+//@pin file=lrpar/src/lib/parser.rs fn=lr sha=77bcb0844d1d0539
 //@use prelude/tail.rs
